@@ -346,6 +346,14 @@ def run(model: RepoModel, rep, tier: str):
                           + (f" (skip condition `{norm(skip[0].test)}`)" if skip else "")
                           + ": tags are keyed by symbol/state id, not by graph position, so no structural pre-filter is sound; flows through "
                             "globals, closures and re-used variables are dropped", path=fcfg.describe_path(pth or []))
+    check_summary_accumulates(model, rep, "C10.R6")
+
+
+def check_summary_accumulates(model: RepoModel, rep, RID: str, declare: bool = False):
+    """A method summary is the union of what every exit statement of the method contributes (shared by C10.R6, C07.R6, C08.R7)."""
+    if declare:
+        rep.rule(RID, "a method summary accumulates (unions) what each exit statement of the method contributes: no entry is overwritten "
+                      "per exit", 1)
     gsum = None
     for c in model.module("core/prelim_semantics.py").classes.values():
         if "generate_and_save_analysis_summary" in c.methods:
@@ -378,14 +386,15 @@ def run(model: RepoModel, rep, tier: str):
     key = "core/prelim_semantics.py::generate_and_save_analysis_summary::summary entries accumulate over the method's exits"
     if bad is not None:
         n, t = bad
-        rep.violation("C10.R6", key, "core/prelim_semantics.py", n.lineno,
+        rep.violation(RID, key, "core/prelim_semantics.py", n.lineno,
                       f"`{norm(n)}` assigns the summary entry `{norm(t)}` inside the loop over the method's exit statements with a key that does "
                       f"not depend on the iteration: each exit overwrites what the previous one contributed, so a value returned through an "
                       f"earlier `return` is missing from the callee summary and its flow is lost")
     elif n_acc:
-        rep.holds("C10.R6", key, "core/prelim_semantics.py", gsum.node.lineno, f"{n_acc} accumulating update(s) (add_to_dict_with_default_set); no overwriting store")
+        rep.holds(RID, key, "core/prelim_semantics.py", gsum.node.lineno, f"{n_acc} accumulating update(s) (add_to_dict_with_default_set); no overwriting store")
     else:
-        rep.unknown("C10.R6", key, "core/prelim_semantics.py", gsum.node.lineno, "no accumulation recognised")
+        rep.unknown(RID, key, "core/prelim_semantics.py", gsum.node.lineno, "no accumulation recognised")
+
 
 
 # ---------------------------------------------------------------- self-test mutants
